@@ -90,6 +90,24 @@ Fixpoint nats_eqb (a b : list nat) : bool :=
      1 = Lcapy agrees with the specification but differs from the model with the translated forms
      2 = values agree, dispatch events differ     3 = the model has no value where Lcapy returned one     0 = agrees *)
 Definition xspec (D : positive) : forms QcIF := spec_forms QcIF (xex D) (xsn D) (xcs D) xneg xFn xIc.
+(* the order in which the terms of a sum are visited is SymPy's as_ordered_terms (it depends on symbolic coefficients):
+   the dispatch events are compared as a multiset of per-term groups (a group starts at every EvTerm = 0) *)
+Fixpoint ev_groups (l cur : list nat) (acc : list (list nat)) : list (list nat) :=
+  match l with
+  | [] => rev cur :: acc
+  | x :: l' => if Nat.eqb x 0 then ev_groups l' [0%nat] (rev cur :: acc) else ev_groups l' (x :: cur) acc
+  end.
+Fixpoint remove1 (g : list nat) (L : list (list nat)) : option (list (list nat)) :=
+  match L with
+  | [] => None
+  | h :: L' => if nats_eqb g h then Some L' else match remove1 g L' with Some R => Some (h :: R) | None => None end
+  end.
+Fixpoint perm_eqb (A B : list (list nat)) : bool :=
+  match A with
+  | [] => match B with [] => true | _ => false end
+  | g :: A' => match remove1 g B with Some B' => perm_eqb A' B' | None => false end
+  end.
+Definition events_eqb (a b : list nat) : bool := perm_eqb (ev_groups a [] []) (ev_groups b [] []).
 (* the lower limit 0 or 0- only matters when an impulse sits at the origin: otherwise integrate_0 and integrate_0minus
    are the same branch for the comparison of dispatch events *)
 Definition relax (strict : bool) (l : list nat) : list nat :=
@@ -104,7 +122,7 @@ Definition run_case (F : forms QcIF) (D : positive) (zic : bool) (e : tx QcIF) (
   match doit QcIF (xex D) cii is_real xneg xFv F (xorc D) zic e with
   | (Some X, mevs) =>
       if qci_eqb (X s0) want then
-        (if check_events then (if nats_eqb (relax strict (map ev_code mevs)) (relax strict evs) then 0 else 2) else 0)%nat
+        (if check_events then (if events_eqb (relax strict (map ev_code mevs)) (relax strict evs) then 0 else 2) else 0)%nat
       else 1%nat
   | (None, _) => 3%nat
   end.
